@@ -1,3 +1,4 @@
+import RsMatterVerif.Generated.Consts
 import RsMatterVerif.Model.Codec.Buf
 /-!
 # Model of `utils/codec/base38.rs`
@@ -15,7 +16,7 @@ def alphabet : List Nat :=
    65, 66, 67, 68, 69, 70, 71, 72, 73, 74, 75, 76, 77, 78, 79, 80, 81, 82, 83, 84, 85, 86, 87, 88, 89, 90,
    45, 46]
 
-def UNUSED : Nat := 255
+def UNUSED : Nat := Consts.c17Base38Unused
 
 /-- `DECODE_BASE38` (index = char − 45) -/
 def decodeTable : List Nat :=
